@@ -12,3 +12,22 @@ Definition ev_seg (s : Z -> Z) (src sb dst db n : Z) : Z -> Z :=
 Definition seg_rec (s : Z -> Z) (k : Z) : Z * Z * Z * Z * Z := (s (5 * k + 1), s (5 * k + 2), s (5 * k + 3), s (5 * k + 4), s (5 * k + 5)).
 Definition segs_list (s : Z -> Z) : list (Z * Z * Z * Z * Z) := map (fun k => seg_rec s (Z.of_nat k)) (seq 0 (Z.to_nat (s 0))).
 Definition no_segs : Z -> Z := fun _ => 0.
+
+(* ---- growth round 3: vocabulary of the generated code / AST facts for the pointer-walking functions ---- *)
+Definition key_less (a b : Z) : bool := Z.ltb a b.      (* TreeTraits::IsLess on the model's keys *)
+
+Inductive side := SThis | SDst.                          (* *this (the source) / dstTreeSet in TreeSet::MergeTo(TreeSet&) *)
+Inductive side_pos := PFirst | PLast.                    (* *set.GetBegin() / *std::prev(set.GetEnd()) *)
+Inductive fcond :=
+| COrdered (a b : side)                                  (* pvIsOrdered(a, b) *)
+| CLessLastFirst (a b : side).                           (* IsLess(key of last item of a, key of first item of b) *)
+
+(* the statements of the root-collapse loop of pvRebalance, as read off the AST *)
+Inductive pvar := VRoot (* mRootNode *) | VNode (* the parameter `node` *) | VLocal (* the local `rootNode` *).
+Inductive pexpr := EVar (v : pvar) | EChild0 (e : pexpr) (* e->GetChild(0) *) | EParent (e : pexpr) (* e->GetParent() *).
+Inductive cstmt :=
+| SLocal (e : pexpr)                                     (* Node* rootNode = e; *)
+| SAssign (v : pvar) (e : pexpr)
+| SIfEq (a b : pvar) (s : cstmt)                         (* if (a == b) s *)
+| SDestroy (e : pexpr)                                   (* e->Destroy(params) *)
+| SSetParentNull (e : pexpr).                            (* e->SetParent(nullptr) *)
